@@ -25,6 +25,7 @@
 #include <signal.h>
 #include <stdint.h>
 #include <stdio.h>
+#include <stdio_ext.h>
 #include <stdlib.h>
 #include <string.h>
 #include <sys/ioctl.h>
@@ -58,7 +59,8 @@ extern int rec_real_execve(const char *path, char *const argv[], char *const env
 static const char *g_ini;
 static int g_timeout_ms = 20000;
 static int g_lift_fsize_after_call;
-static int g_pre_errno;            /* errno value the "caller" has when it enters the wrapped call */
+static int g_pre_errno;
+static int g_track_pending;            /* errno value the "caller" has when it enters the wrapped call */
 static size_t g_thread_stack;      /* stack size for threads created by 'Z' (0 = default) */
 static int g_markers;      /* oneshot mode: bracket the wrapper window with prctl(MARK, 1|2|3) for the tracer */
 
@@ -336,6 +338,8 @@ static void state_snapshot(buf_t *out)
     mode_t um = umask(0); umask(um);
     snprintf(t, sizeof t, ";umask=%o", um);
     buf_add(out, t, strlen(t));
+    /* the caller's own unflushed stdio data (a real exec discards it; the wrapper must not push it out) */
+    if (g_track_pending) { snprintf(t, sizeof t, ";stdout-pending=%zu", __fpending(stdout)); buf_add(out, t, strlen(t)); }
     sigset_t cur;
     sigprocmask(SIG_SETMASK, NULL, &cur);
     buf_add(out, ";mask=", 6);
@@ -1047,6 +1051,11 @@ static void run_ops(op_t *ops, int nops)
             kill(g_chain->pid[lvl], SIGUSR1);
             for (int ms = 0; ms < 3000 && !g_chain->ack; ms++) usleep(1000);
             if (!g_chain->ack) ev_error("ancestor did not rename");
+            break; }
+        case 'w': { /* the caller has unflushed data in its stdout buffer: args bytes */
+            setvbuf(stdout, NULL, _IOFBF, 1 << 16);
+            fwrite(op->a[0].p, 1, op->a[0].len, stdout);
+            g_track_pending = 1;
             break; }
         case 'e': g_pre_errno = arg_int(&op->a[0]); break;
         case 't': g_thread_stack = (size_t) arg_ll(&op->a[0]); break;
